@@ -15,8 +15,8 @@ import (
 type Book struct {
 	R         *vrep.Result
 	Buf       []byte // scratch read buffer reused across executions
-	N         int    // executions so far
-	Transfers int64  // intact transfers so far (several per execution)
+	N         int    // fresh connections (bubbles) so far
+	Transfers int64  // checked transfers / grid points so far (several per connection in the grids)
 	deadline  time.Time
 	capped    bool
 	shardI    int
@@ -58,9 +58,9 @@ func (b *Book) Distinct(sample any, key ...any) {
 		return
 	}
 	b.distinct[k] = struct{}{}
-	// samples: the first worker only, two per part (the 2nd and the 40th distinct case), so that the merged
-	// evidence shows cases of every part
-	if b.shardI == 0 && (len(b.distinct) == 2 || len(b.distinct) == 40) {
+	// samples: the first worker only, one per part (its 3rd distinct case), so that the merged evidence
+	// (which keeps a dozen) shows a case of every part
+	if b.shardI == 0 && len(b.distinct) == 3 {
 		b.R.Sample(sample)
 	}
 }
